@@ -34,7 +34,36 @@
   the value. Observed: a value ending in a line break (`text="a\n"`) is ONE line whose text element
   holds "a" followed by the newline character (content = the value, not the line).
 -/
+/-
+  C19, extension (Svgdx/Proofs/TextGen.lean): the hand model of text.rs that the C19 theorems are about
+  (`Svgdx.Text`, Svgdx/Geom/Text.lean) EQUALS, for all inputs, the placement logic regenerated from the
+  syn AST of /repo/src/text.rs on every run (`Svgdx.Gen.Text`, Svgdx/Gen/Text.lean).  A change to an arm, a
+  class name, a sign, a guard or a constant in text.rs changes the generated definitions and breaks one of
+  these equations.
+   * `anchorAdjust_eq_gen`: the two `match text_anchor { ls if ls.is_top() => .. }` statements of
+     `get_text_position` (generated `anchor_adjust`: the mutable state t_dx, t_dy, text_classes after them,
+     as a function of the state before, the anchor, text-offset, `vertical`, `outside`) add
+     `Text.offsetDelta` to (t_dx, t_dy) and append `Text.anchorClasses` to the classes;
+   * `anchorClasses_eq_gen`: `Text.anchorClasses loc outside vertical` is the list of class names those
+     statements push (is_top / is_bottom block first, then is_left / is_right, each with its
+     `match (outside, vertical)` table), whatever the offset;
+   * `textClasses_eq_gen`: `d-text ::` that list is what they leave when started from the code's
+     `let mut text_classes = vec!["d-text"]`;
+   * `offsetDelta_eq_gen`: `Text.offsetDelta loc outside offset` is what they add to the code's initial
+     t_dx = t_dy = 0 (sign rules per side, inside vs outside), whatever the classes and `vertical`;
+   * `firstLineOffset_eq_gen`: `Text.firstLineOffset` is `first_line_offset(line_count, line_spacing)`
+     for `let first_line_offset = match (outside, vertical, text_loc) { .. }` with the local constants
+     WRAP_DOWN / WRAP_UP / WRAP_MID (generated `line_offset .. 0`);
+   * `laterLineOffset_eq_gen`: every later line gets `line_spacing`; `lineOffset_eq_gen`: the `off` of
+     `Text.processTextAttr` for the tspan of index idx is the generated `line_offset`;
+   * `tspanOffsetAttr_eq_gen`: the tspan attribute carrying it is `dx` for vertical text, else `dy`;
+     `zwsp_nbsp_eq_gen`: the constants ZWSP / NBSP.
+  Not regenerated (stays with the hand model, Props/C19x and the doc/text correspondence stream): the
+  attribute parsing of `get_text_position` (text-dx / dy / dxy, text-loc, text-offset, the `outside` rule),
+  the bounding-box lookup, `text_string`, and the element / class bookkeeping of `process_text_attr`.
+-/
 import Svgdx.Proofs.TextWhole
+import Svgdx.Proofs.TextGen
 
 #print axioms Svgdx.Props.C19x.textPosition_eq_spec
 #print axioms Svgdx.Props.C19x.anchor
@@ -59,3 +88,12 @@ import Svgdx.Proofs.TextWhole
 #print axioms Svgdx.Props.C19x.foldl_presStep
 #print axioms Svgdx.Props.C19x.text_elements
 #print axioms Svgdx.Props.C19x.spans_give_lines
+#print axioms Svgdx.Props.C19g.anchorAdjust_eq_gen
+#print axioms Svgdx.Props.C19g.anchorClasses_eq_gen
+#print axioms Svgdx.Props.C19g.textClasses_eq_gen
+#print axioms Svgdx.Props.C19g.offsetDelta_eq_gen
+#print axioms Svgdx.Props.C19g.firstLineOffset_eq_gen
+#print axioms Svgdx.Props.C19g.laterLineOffset_eq_gen
+#print axioms Svgdx.Props.C19g.lineOffset_eq_gen
+#print axioms Svgdx.Props.C19g.tspanOffsetAttr_eq_gen
+#print axioms Svgdx.Props.C19g.zwsp_nbsp_eq_gen
